@@ -524,8 +524,12 @@ pub fn gen_family_spec(family: &str, seed: u64, index: usize) -> Spec {
                 single_rule_spec(&all[index])
             } else {
                 let mut rng = Rng::derive(seed, &[fam_hash(family), index as u64]);
-                let k = rng.range(3, 6);
-                single_rule_spec(&random_prec_tree(&mut rng, k, &atoms))
+                if rng.chance(2, 3) {
+                    single_rule_spec(&templated_prec_tree(&mut rng, &atoms))
+                } else {
+                    let k = rng.range(3, 6);
+                    single_rule_spec(&random_prec_tree(&mut rng, k, &atoms))
+                }
             }
         }
         _ => {
@@ -939,6 +943,66 @@ pub fn random_prec_tree(rng: &mut Rng, ops: usize, atoms: &[Re]) -> Re {
             Re::diff(Re::Any, Re::Chr('a'))
         }
     }
+}
+
+/// Trees built around the places where the grammar's precedence and associativity decide the
+/// reading: postfix after a concatenation / a difference, chained and nested differences,
+/// alternation next to concatenation.
+pub fn templated_prec_tree(rng: &mut Rng, atoms: &[Re]) -> Re {
+    let env = Env::new();
+    let small = |rng: &mut Rng| -> Re {
+        let k = rng.below(2);
+        random_prec_tree(rng, k, atoms)
+    };
+    let post = |rng: &mut Rng, t: Re| -> Re {
+        match rng.below(3) {
+            0 => Re::star(t),
+            1 => Re::plus(t),
+            _ => Re::opt(t),
+        }
+    };
+    let cls = |rng: &mut Rng| -> Re { rng.pick(atoms).clone() };
+    for _ in 0..50 {
+        let t = match rng.below(9) {
+            0 => {
+                let (x, y) = (small(rng), small(rng));
+                let py = post(rng, y);
+                Re::cat(x, py)
+            }
+            1 => {
+                let (x, y) = (small(rng), small(rng));
+                let c = Re::cat(x, y);
+                post(rng, c)
+            }
+            2 => Re::alt(Re::cat(small(rng), small(rng)), small(rng)),
+            3 => Re::cat(small(rng), Re::alt(small(rng), small(rng))),
+            4 => Re::cat(Re::alt(small(rng), small(rng)), small(rng)),
+            5 => {
+                let d = Re::diff(cls(rng), cls(rng));
+                post(rng, d)
+            }
+            6 => Re::diff(Re::diff(cls(rng), cls(rng)), cls(rng)),
+            7 => Re::diff(cls(rng), Re::diff(cls(rng), cls(rng))),
+            _ => {
+                let d = Re::diff(cls(rng), cls(rng));
+                let pd = post(rng, d);
+                Re::cat(small(rng), Re::alt(pd, small(rng)))
+            }
+        };
+        // every difference in the tree must be a non-empty class
+        let mut ok = true;
+        t.visit(&mut |x| {
+            if let Re::Diff(_, _) = x {
+                if !is_class_expr(x, &env) || class_size(x, &env) == 0 {
+                    ok = false;
+                }
+            }
+        });
+        if ok {
+            return t;
+        }
+    }
+    Re::cat(Re::Chr('a'), Re::star(Re::Chr('b')))
 }
 
 fn random_class_tree(rng: &mut Rng, ops: usize, atoms: &[Re]) -> Re {
